@@ -776,7 +776,8 @@ Lemma preserve_strong d cs c d' m' b :
   exists b', bind d' (to_call_info m' c d') = Some b'
     /\ (forall n dflt, In (n, dflt) (d_args d') -> lookup n b' = eff dflt (pd_get n (m_pd m')))
     /\ Forall (P b (names d) (m_pd m')) (d_args d')
-    /\ b_star b' = b_star b /\ b_kw b' = b_kw b /\ map fst (b_params b') = names d'.
+    /\ b_star b' = b_star b /\ b_kw b' = b_kw b /\ map fst (b_params b') = names d'
+    /\ (m_surplus m' <> [] -> Forall (Q (m_pd m')) (d_args d')).
 Proof.
   intros Hd Hm Hside Hb. unfold bind in Hb. destruct (plain_call c) eqn:Hplain; [|discriminate].
   destruct (init_spec d c b Hb) as [ND [I1 [I2 [I3 [I4 [I5 [I6 [I7 I8]]]]]]]].
@@ -820,7 +821,8 @@ Proof.
   { unfold bind, to_call_info. destruct (tci (d_args d') (m_pd m')) as [a k]. cbn [fst snd] in B1.
     unfold plain_call in *. cbn [c_star c_kwstar c_args c_kws]. rewrite Hplain. exact B1. }
   split; [exact B2|]. split; [exact HP|].
-  split; [rewrite B3, Hsu; exact I2|]. split; [rewrite B4, Hkw; exact I3|exact B5].
+  split; [rewrite B3, Hsu; exact I2|]. split; [rewrite B4, Hkw; exact I3|]. split; [exact B5|].
+  intros Hne. apply (proj2 (HS Hne)).
 Qed.
 
 Theorem preserve d cs c d' c' b :
@@ -832,7 +834,7 @@ Theorem preserve d cs c d' c' b :
 Proof.
   intros Hd Hc Hside Hb. unfold Args.change_call in Hc. rewrite Hd in Hc.
   destruct (apply_maps cs d (mapping_init d c)) as [m'|] eqn:Hm; [|discriminate]. inversion Hc; subst c'. clear Hc.
-  destruct (preserve_strong d cs c d' m' b Hd Hm Hside Hb) as [b' [B1 [B2 [HP [B3 [B4 B5]]]]]].
+  destruct (preserve_strong d cs c d' m' b Hd Hm Hside Hb) as [b' [B1 [B2 [HP [B3 [B4 [B5 _]]]]]]].
   exists b'. split; [exact B1|]. split; [|auto].
   intros n Hn Hn'. unfold names in Hn'. apply in_map_iff in Hn'. destruct Hn' as [[n0 dflt] [E1 E2]].
   cbn [fst] in E1. subst n0. rewrite (B2 _ _ E2). rewrite Forall_forall in HP.
@@ -1955,6 +1957,88 @@ Proof.
     rewrite I8. intros Hx. apply Hfresh. apply in_or_app. left. exact Hx.
 Qed.
 
+(* with surplus positional arguments the introduced parameter takes the first of them: the exact
+   behaviour behind the open finding introduce-before-vararg *)
+Lemma bind_pos_snoc_surplus p dp : forall ps args, length ps < length args ->
+  exists x rest, snd (bind_pos ps args) = x :: rest
+    /\ bind_pos (ps ++ [(p, dp)]) args = (fst (bind_pos ps args) ++ [(p, Some x)], rest).
+Proof.
+  induction ps as [|[n d] ps IH]; intros args H.
+  - destruct args as [|x rest]; [cbn in H; lia|]. exists x, rest. cbn. auto.
+  - destruct args as [|v args]; [cbn in H; lia|]. cbn [length] in H.
+    destruct (IH args (proj2 (Nat.succ_lt_mono _ _) H)) as [x [rest [I1 I2]]]. exists x, rest.
+    cbn [app bind_pos]. rewrite I2. destruct (bind_pos ps args) as [s r]. cbn [fst snd] in *. auto.
+Qed.
+
+Lemma bind_kws_snoc_any hk p o : forall kws slots extra slots' extra',
+  ~ In p (map fst kws) -> bind_kws hk kws slots extra = Some (slots', extra') ->
+  bind_kws hk kws (slots ++ [(p, o)]) extra = Some (slots' ++ [(p, o)], extra').
+Proof.
+  induction kws as [|[n v] kws IH]; intros slots extra slots' extra' Hp; cbn [bind_kws].
+  - intros H. inversion H; subst. reflexivity.
+  - assert (n <> p) as Hne by (intros ->; apply Hp; left; reflexivity).
+    assert (~ In p (map fst kws)) as Hp' by (intros Hx; apply Hp; right; exact Hx).
+    rewrite map_app, has_name_app. cbn [map fst has_name existsb]. apply N.eqb_neq in Hne. rewrite Hne.
+    cbn [orb]. rewrite orb_false_r.
+    destruct (has_name n (map fst slots)).
+    + destruct (slot_set n v slots) as [s1|] eqn:Es; [|discriminate]. rewrite (slot_set_app _ _ _ _ _ Es). apply IH. exact Hp'.
+    + destruct (hk && negb (has_name n (map fst extra))); [|discriminate]. apply IH. exact Hp'.
+Qed.
+
+Lemma fill_defaults_snoc_bound p e x : forall ps slots bp, fill_defaults ps slots = Some bp ->
+  fill_defaults (ps ++ [(p, Some e)]) (slots ++ [(p, Some x)]) = Some (bp ++ [(p, x)]).
+Proof.
+  induction ps as [|[n d] ps IH]; intros slots bp; destruct slots as [|[m b] s]; cbn [fill_defaults app]; try discriminate.
+  - intros H. inversion H; subst. reflexivity.
+  - destruct (match b with Some v => Some v | None => d end) as [v|]; [|discriminate].
+    destruct (fill_defaults ps s) as [r|] eqn:E; [|discriminate]. intros H. inversion H; subst.
+    rewrite (IH _ _ E). reflexivity.
+Qed.
+
+Theorem introduce_surplus d c p e b :
+  bind d c = Some b ->
+  has_name p (names d ++ opt_list (d_star d) ++ opt_list (d_kw d) ++ map fst (c_kws c)) = false ->
+  has_surplus d c = true ->
+  exists x rest b', b_star b = x :: rest /\ bind (introduce_def d p e) c = Some b'
+    /\ (forall n, In n (names d) -> lookup n b' = lookup n b)
+    /\ lookup p b' = Some x /\ b_star b' = rest /\ b_kw b' = b_kw b.
+Proof.
+  intros Hb Hfresh Hsur. unfold bind in *. destruct (plain_call c); [|discriminate].
+  apply has_name_false in Hfresh. unfold has_surplus in Hsur. apply Nat.ltb_lt in Hsur.
+  destruct (init_spec d c b Hb) as [ND [I1 [_ [_ [_ [_ [_ [I7 I8]]]]]]]].
+  destruct (bind_args_inv _ _ _ _ Hb) as [Hv [slots' [extra [bp [Hk [Hf Hbb]]]]]].
+  assert (valid_def (introduce_def d p e) = true) as Hv'.
+  { unfold valid_def in *. rewrite andb_true_iff in *. destruct Hv as [V1 V2]. unfold introduce_def, names. cbn [d_args d_star d_kw].
+    split; [|rewrite defaults_suffix_snoc; exact V2].
+    apply nodup_names_NoDup. apply nodup_names_NoDup in V1. rewrite map_app. cbn [map fst]. rewrite <- app_assoc. cbn [app].
+    eapply Permutation_NoDup; [apply Permutation_middle|]. constructor; [|exact V1].
+    intros Hx. apply Hfresh. unfold names. apply in_app_or in Hx. apply in_or_app. destruct Hx as [Hx|Hx]; [left; exact Hx|].
+    right. rewrite app_assoc. apply in_or_app. left. exact Hx. }
+  destruct (bind_pos_snoc_surplus p (Some e) (d_args d) (c_args c) Hsur) as [x [rest [P2 P1]]].
+  assert (~ In p (map fst (c_kws c))) as Hpk.
+  { intros Hx. apply Hfresh. apply in_or_app. right. apply in_or_app. right. apply in_or_app. right. exact Hx. }
+  pose proof (bind_kws_snoc_any _ p (Some x) _ _ _ _ _ Hpk Hk) as K1.
+  pose proof (fill_defaults_snoc_bound p e x _ _ _ Hf) as F1.
+  assert (d_star d <> None) as Hst by (apply I7; subst b; cbn [b_star]; rewrite P2; discriminate).
+  exists x, rest, (mkBind (bp ++ [(p, x)]) rest extra). subst b. cbn [b_params b_star b_kw] in *. split; [exact P2|]. split.
+  { unfold bind_args. rewrite Hv'. cbn [negb introduce_def d_args d_star d_kw]. rewrite P1, K1, F1.
+    destruct rest; [reflexivity|]. destruct (d_star d); [reflexivity|congruence]. }
+  split; [|split; [|auto]].
+  - intros n Hn. unfold names in Hn. apply in_map_iff in Hn. destruct Hn as [[n0 dn] [E1 E2]]. cbn [fst] in E1. subst n0.
+    destruct (I1 _ _ E2) as [_ J]. unfold lookup in J. cbn [b_params] in J. unfold lookup. cbn [b_params].
+    destruct (pd_get n bp) as [v|] eqn:Eg; [|congruence]. apply pd_get_app_l. exact Eg.
+  - unfold lookup. cbn [b_params]. rewrite pd_get_app_r; [cbn [pd_get]; rewrite N.eqb_refl; reflexivity|].
+    rewrite I8. intros Hx. apply Hfresh. apply in_or_app. left. exact Hx.
+Qed.
+
+Lemma introduce_surplus_nonvacuous :
+  exists d c p e b, d = mkDef [(1, None)]%N (Some 7%N) None
+    /\ c = mkCall 20%N [30; 31; 32]%N [] None None false false /\ p = 3%N /\ e = 40%N
+    /\ bind d c = Some b
+    /\ has_name p (names d ++ opt_list (d_star d) ++ opt_list (d_kw d) ++ map fst (c_kws c)) = false
+    /\ has_surplus d c = true.
+Proof. do 5 eexists. repeat split; vm_compute; reflexivity. Qed.
+
 Lemma introduce_parameter_nonvacuous :
   exists d c p e b, d = mkDef [(1, None); (2, Some 10)]%N (Some 7%N) (Some 8%N)
     /\ c = mkCall 20%N [30]%N [(2, 31); (9, 32)]%N None None false false
@@ -2155,6 +2239,156 @@ Lemma normalize_idempotent_nonvacuous :
 Proof.
   do 3 eexists. repeat split; try (vm_compute; reflexivity).
   cbn. repeat constructor; cbn; intuition discriminate.
+Qed.
+
+(* ------------------------------------------------------------------------------------------------ *)
+(* C06_explicit_preserved: an argument the call passes stays an argument (a default is evaluated when
+   the def runs, an argument at the call, so equal spelling would not be enough)                      *)
+Lemma passed_pos_sget n v : forall ps args, passed_pos ps args n = Some v -> sget n (fst (bind_pos ps args)) = Some v.
+Proof.
+  induction ps as [|[m dm] ps IH]; intros args; destruct args as [|a args]; cbn [passed_pos bind_pos]; try discriminate.
+  specialize (IH args). destruct (bind_pos ps args) as [s r]. cbn [fst sget] in *.
+  destruct (N.eqb m n); [auto|exact IH].
+Qed.
+
+Lemma passed_pos_none_sget n : forall ps args, passed_pos ps args n = None -> sget n (fst (bind_pos ps args)) = None.
+Proof.
+  induction ps as [|[m dm] ps IH]; intros args; [reflexivity|]. destruct args as [|a args].
+  - intros _. apply (bind_pos_nil ((m, dm) :: ps) n).
+  - cbn [passed_pos bind_pos]. specialize (IH args). destruct (bind_pos ps args) as [s r]. cbn [fst sget] in *.
+    destruct (N.eqb m n); [discriminate|exact IH].
+Qed.
+
+Lemma bind_kws_sets hk n v : forall kws slots extra slots' extra',
+  bind_kws hk kws slots extra = Some (slots', extra') -> In n (map fst slots) -> sget n slots = None ->
+  pd_get n kws = Some v -> sget n slots' = Some v.
+Proof.
+  induction kws as [|[k w] kws IH]; intros slots extra slots' extra'; cbn [bind_kws pd_get]; [discriminate|].
+  intros H Hin Hs Hg. destruct (N.eqb_spec k n).
+  - subst k. inversion Hg; subst w. rewrite (proj2 (has_name_In _ _) Hin) in H.
+    destruct (slot_set n v slots) as [s1|] eqn:Es; [|discriminate].
+    eapply bind_kws_keeps; [exact H|]. destruct (slot_set_sget _ _ _ _ Es) as [J _]. rewrite J, N.eqb_refl. reflexivity.
+  - destruct (has_name k (map fst slots)).
+    + destruct (slot_set k w slots) as [s1|] eqn:Es; [|discriminate]. destruct (slot_set_sget _ _ _ _ Es) as [J1 J2].
+      eapply IH; [exact H|rewrite J2; exact Hin| |exact Hg]. rewrite J1. apply N.eqb_neq in n0. rewrite n0. exact Hs.
+    + destruct (hk && negb (has_name k (map fst extra))); [|discriminate]. eapply IH; eauto.
+Qed.
+
+Lemma passed_pd d c b n v :
+  bind_args d (c_args c) (c_kws c) = Some b -> In n (names d) -> passed d c n = Some v ->
+  pd_get n (m_pd (mapping_init d c)) = Some v.
+Proof.
+  intros Hb Hin Hp. destruct (bind_args_inv _ _ _ _ Hb) as [Hv [slots' [extra [bp [Hk _]]]]].
+  pose proof (valid_def_NoDup _ Hv) as ND. unfold names in ND, Hin.
+  destruct (pos_phase (d_args d) ND (c_args c) []) as [_ Hp2].
+  pose proof (bind_pos_names (d_args d) (c_args c)) as Hnm.
+  assert (forall k, pd_get k (fst (map_pos (d_args d) (c_args c) [])) = sget k (fst (bind_pos (d_args d) (c_args c)))) as HR.
+  { intros k. rewrite Hp2. cbn [pd_get]. destruct (sget k (fst (bind_pos (d_args d) (c_args c)))); reflexivity. }
+  destruct (kw_phase _ (d_args d) _ _ _ _ _ _ Hnm HR Hk) as [K1 _].
+  destruct (mapping_init_fields d c) as [_ [_ ->]]. rewrite K1.
+  unfold passed in Hp. destruct (passed_pos (d_args d) (c_args c) n) as [w|] eqn:Epp.
+  - inversion Hp; subst w. eapply bind_kws_keeps; [exact Hk|]. apply passed_pos_sget. exact Epp.
+  - eapply bind_kws_sets; [exact Hk| | |exact Hp].
+    + rewrite Hnm. exact Hin.
+    + apply passed_pos_none_sget. exact Epp.
+Qed.
+
+Definition Rv (n v : N) (pd : list (N * N)) (e : N * option N) : Prop := fst e = n -> pd_get n pd = Some v.
+
+Lemma steps_Rv n v : forall cs d d' m m',
+  apply_defs cs d = Some d' -> apply_maps cs d m = Some m' -> Forall (addP [n]) cs ->
+  (rdel = true -> nodup_steps cs d = true) ->
+  Forall (Rv n v (m_pd m)) (d_args d) -> Forall (Rv n v (m_pd m')) (d_args d').
+Proof.
+  intros cs d d' m m' H1 H2 H3 H5 H4.
+  refine (proj1 (steps_inv (Rv n v) _ _ _ _ _ (addP [n]) _ cs d d' m m' H1 H2 H3 H5 H4)); unfold Rv; cbn [fst snd];
+    clear cs d d' m m' H1 H2 H3 H4 H5.
+  - intros pd k w e Hne H He. rewrite pd_get_set_neq by congruence. exact (H He).
+  - intros pd k e x' H Hg ->. rewrite (H eq_refl) in Hg. discriminate.
+  - intros pd k x x' _ H. exact H.
+  - intros pd k a H. exact H.
+  - intros pd k e Hne H He. rewrite pd_get_del_neq by congruence. exact (H He).
+  - intros pd i k dflt val [Hn _] ->. exfalso. apply Hn. left. reflexivity.
+Qed.
+
+Theorem explicit_preserved d cs c d' c' b n v :
+  apply_defs cs d = Some d' -> change_call cs d c = Some c' ->
+  side_ok d cs c d' = true -> bind d c = Some b ->
+  In n (names d) -> In n (names d') -> passed d c n = Some v -> passed d' c' n = Some v.
+Proof.
+  intros Hd Hc Hside Hb Hin Hin' Hp. unfold Args.change_call in Hc. rewrite Hd in Hc.
+  destruct (apply_maps cs d (mapping_init d c)) as [m'|] eqn:Hm; [|discriminate]. inversion Hc; subst c'. clear Hc.
+  destruct (preserve_strong d cs c d' m' b Hd Hm Hside Hb) as [b' [_ [_ [_ [_ [_ [_ HS]]]]]]].
+  pose proof Hside as Hs. unfold Args.side_ok in Hs. rewrite !andb_true_iff in Hs. destruct Hs as [[[[Hv Hadds] _] _] Hnds].
+  unfold bind in Hb. destruct (plain_call c); [|discriminate].
+  pose proof (passed_pd d c b n v Hb Hin Hp) as Hg0.
+  assert (Forall (Rv n v (m_pd m')) (d_args d')) as HR.
+  { eapply steps_Rv; [exact Hd|exact Hm| | |].
+    - eapply adds_ok_addP; [exact Hadds|]. intros x [<-|[]]. apply in_or_app. left. exact Hin.
+    - intros Hr. rewrite Hr in Hnds. exact Hnds.
+    - rewrite Forall_forall. intros e _ _. exact Hg0. }
+  unfold names in Hin'. apply in_map_iff in Hin'. destruct Hin' as [[k dk] [E1 E2]]. cbn [fst] in E1. subst k.
+  rewrite Forall_forall in HR. pose proof (HR _ E2 eq_refl) as Hg.
+  pose proof (valid_def_NoDup _ Hv) as ND'. unfold names in ND'.
+  pose proof (passed_tci (m_pd m') (m_surplus m') (m_kwargs m') n v (d_args d') _ ND' E2 Hg HS) as Hpt.
+  unfold passed, to_call_info. destruct (tci (d_args d') (m_pd m')) as [a k]. cbn [c_args c_kws fst snd] in *.
+  destruct (passed_pos (d_args d') (a ++ m_surplus m') n); exact Hpt.
+Qed.
+
+Lemma explicit_preserved_nonvacuous :
+  exists d cs c d' c' b n v,
+    d = mkDef [(1, None); (2, Some 10); (3, Some 10)]%N None None
+    /\ cs = [Add 1 4%N (Some 12%N) None]
+    /\ c = mkCall 20%N [30]%N [(3, 10)]%N None None false false
+    /\ apply_defs cs d = Some d' /\ change_call cs d c = Some c'
+    /\ side_ok d cs c d' = true /\ bind d c = Some b
+    /\ n = 3%N /\ v = 10%N /\ In n (names d) /\ In n (names d') /\ passed d c n = Some v
+    /\ c_kws c' = [(3, 10)]%N.
+Proof.
+  destruct rdel; do 8 eexists; (repeat split; try (vm_compute; reflexivity)); vm_compute; auto.
+Qed.
+
+(* ------------------------------------------------------------------------------------------------ *)
+(* project level: every call site the finders reach is rewritten consistently; a constructor call
+   through an inheriting subclass is not reached                                                     *)
+Theorem site_preserve is_init d cs s d' r' c b :
+  finder_finds is_init (ps_callee s) = true ->
+  apply_defs cs d = Some d' -> change_site rdel is_init d cs s = Some r' ->
+  call_read d (ps_implicit s) (ps_ctor s) (ps_call s) = Some c ->
+  side_ok d cs c d' = true -> recv_ok d c d' = true -> bind d c = Some b ->
+  exists c2 b', call_read d' (ps_implicit s) (ps_ctor s) r' = Some c2 /\ bind d' c2 = Some b'
+    /\ (forall n, In n (names d) -> In n (names d') -> lookup n b' = lookup n b)
+    /\ b_star b' = b_star b /\ b_kw b' = b_kw b /\ map fst (b_params b') = names d'.
+Proof.
+  intros Hf Hd Hs Hr Hside Hrecv Hb. unfold change_site in Hs. rewrite Hf, Hr in Hs.
+  destruct (change_call cs d c) as [c'|] eqn:Hc; [|discriminate].
+  eapply preserve_text; eauto.
+Qed.
+
+Lemma site_preserve_nonvacuous :
+  exists d cs s d' r' c b,
+    d = mkDef [(1, None); (2, None); (3, Some 10)]%N None None
+    /\ cs = [Reorder [0; 2; 1] (Some 11%N)]
+    /\ s = mkPsite CClass false true (mkRend None 20%N [31]%N [(3, 32)]%N None None)
+    /\ finder_finds true (ps_callee s) = true
+    /\ apply_defs cs d = Some d' /\ change_site rdel true d cs s = Some r'
+    /\ call_read d (ps_implicit s) (ps_ctor s) (ps_call s) = Some c
+    /\ side_ok d cs c d' = true /\ recv_ok d c d' = true /\ bind d c = Some b
+    /\ r' = mkRend None 20%N [32; 31]%N [] None None.
+Proof. destruct rdel; do 7 eexists; repeat split; vm_compute; reflexivity. Qed.
+
+(* class B(A): pass; B(1, 2) with A.__init__(self, a, b) reordered to (self, b, a): the call stays, a gets 2 *)
+Lemma subclass_ctor_refuted :
+  exists d cs s d' r' c c2 b b',
+    s = mkPsite CSubclass false true (mkRend None 21%N [31; 32]%N [] None None)
+    /\ apply_defs cs d = Some d' /\ valid_def d' = true
+    /\ change_site rdel true d cs s = Some r' /\ r' = ps_call s
+    /\ call_read d false true (ps_call s) = Some c /\ bind d c = Some b
+    /\ call_read d' false true r' = Some c2 /\ bind d' c2 = Some b'
+    /\ lookup 2%N b = Some 31%N /\ lookup 2%N b' = Some 32%N.
+Proof.
+  exists (mkDef [(1, None); (2, None); (3, None)]%N None None), [Reorder [0; 2; 1] None].
+  do 7 eexists. repeat split; vm_compute; reflexivity.
 Qed.
 
 End Variant.
